@@ -255,7 +255,12 @@ mutate_frame(const struct corpus *c, vh_rng *rg, unsigned part, unsigned nparts,
                 {
                     size_t hdrbits = 96, crcend = c->n >= 14 ? (c->raw[0] & 4 ? 128 : 112) : 96;
                     int across = a < crcend && a + len > hdrbits && !(a >= hdrbits && a + len <= crcend);
-                    judge(m, c->n, 1, 1,
+                    /* A burst is a run of consecutive bits on the channel. The serial links the document names
+                     * (UART, RS232, RS485, USB) shift octets out least significant bit first, so only the
+                     * LSB-first numbering describes bursts; runs that are consecutive in the MSB-first numbering
+                     * are exercised as well, but as ordinary mutations: if the reference decoder still accepts
+                     * the frame, executing it is no violation of the statement. */
+                    judge(m, c->n, 1, lsb_first,
                           across ? (lsb_first ? "burst-lsb-first-into-checksum-field" : "burst-msb-first-into-checksum-field")
                                  : (lsb_first ? "burst-lsb-first" : "burst-msb-first"),
                           c->name);
